@@ -294,8 +294,11 @@ func VerifC08Observe(src, via, proto string, name string, rq VerifC08Req, cfg in
 	o = VerifC08Obs{Src: src, Via: via, P: proto, QOpt: rq.Opt, QSize: int(rq.Size), QDo: rq.Do, QPad: rq.Pad, QKA: rq.KA,
 		QNSID: rq.NSID, Cfg: cfg, HTC: sh.HTC, HOpt: sh.HOpt, HDo: sh.HOpt == "v1do", Name: name, Req: rq, Shape: sh,
 		Full: -1, NRep: len(replies), Sent: len(replies) > 0}
-	if proto == "dnscrypt-udp" || proto == "dnscrypt-tcp" {
-		o.Slack = 64
+	switch proto {
+	case "dnscrypt-udp":
+		o.Slack = 64 // the library truncates to the limit minus 64
+	case "dnscrypt-tcp":
+		o.Slack = 65 // 65471 bytes, padded and framed, overflow the 2-byte TCP length prefix
 	}
 	o.HRc = orig.Rcode
 	if !rq.Opt {
@@ -470,6 +473,10 @@ func (g *VerifC08Gen) Next(proto string, sizes []uint16, cfg int) (c VerifC08Cas
 		delta = r.Intn(81) - 40
 	case 5:
 		delta = []int{-6, -5, -7, 6, -16, 16, -17, 15}[r.Intn(8)]
+		if proto == "dnscrypt-udp" || proto == "dnscrypt-tcp" {
+			// the boundary of the DNSCrypt library: the limit minus 64
+			delta = []int{-66, -65, -64, -63}[r.Intn(4)]
+		}
 	case 6:
 		// far above: twice the limit (capped), or just above 64 KiB
 		if limit*2 < 70000 && r.Intn(3) != 0 {
